@@ -16,9 +16,9 @@ FqGroup(x, o, gl) ==
   IF n < 3 THEN
      IF AllBlank(rest)
      THEN [rec |-> NoRec, okRec |-> FALSE, errs |-> {}, okEnd |-> TRUE, line |-> gl, byte |-> o,
-           len |-> Len(x) - o, zone |-> FALSE, coords |-> FALSE, more |-> FALSE, next |-> Len(x)]
+           len |-> Len(x) - o, zone |-> FALSE, coords |-> FALSE, more |-> FALSE, next |-> Len(x), raw |-> <<>>]
      ELSE [rec |-> NoRec, okRec |-> FALSE, okEnd |-> FALSE, line |-> gl, byte |-> o,
-           len |-> Len(x) - o, zone |-> FALSE, coords |-> TRUE, more |-> FALSE, next |-> Len(x),
+           len |-> Len(x) - o, zone |-> FALSE, coords |-> TRUE, more |-> FALSE, next |-> Len(x), raw |-> <<>>,
            \* "the line on which the input ends": if the input ends right after a LF both the
            \* last complete line and the (empty) line after it are accepted
            errs |-> {ErrD("unexpected_end", {gl + n} \cup (IF endsLF /\ n >= 1 THEN {gl + n - 1} ELSE {}), 0, 0, 0,
@@ -47,7 +47,8 @@ FqGroup(x, o, gl) ==
          z1errs == IF z1 /\ ~AllBlank(rest) THEN {ErrD("unexpected_end", {gl + 2, gl + 3}, 0, 0, 0, idopt(l1))} ELSE {}
      IN [rec |-> rec, okRec |-> valid, errs |-> errs \cup z1errs, okEnd |-> z1 /\ AllBlank(rest),
          line |-> gl, byte |-> o, len |-> (IF eof4 THEN Len(x) ELSE e + 1) - o,
-         zone |-> z1 \/ ~inDomain, coords |-> TRUE, more |-> ~eof4, next |-> e + 1]
+         zone |-> z1 \/ ~inDomain, coords |-> TRUE, more |-> ~eof4, next |-> e + 1,
+         raw |-> Sl(x, o, IF eof4 THEN Len(x) ELSE e + 1)]
 
 \* FqChain(x): groups in file order up to and including the first one after which reading
 \* cannot go on; a final valid group that reaches the end of input is followed by the end element.
